@@ -29,6 +29,10 @@ def check(ctx: Ctx) -> None:
     r1(ctx)
     r2(ctx)
     r3(ctx)
+    r7_other_committers(ctx)
+    # the fence (is_held) and the takeover protocol identify the holder by its owner token
+    from .c19 import owner_token_unique
+    owner_token_unique(ctx, "C08.R8")
     from .c04 import r1 as c04_r1
     c04_r1(ctx)
     # re-label C04.R1 obligations produced just now under C08.R4
@@ -174,6 +178,67 @@ def r1(ctx: Ctx) -> None:
            "The validation read and the ETag read are independent pointer reads: a commit landing between them is "
            "validated-against-old but CAS-ed-against-new, so the conditional PUT succeeds and overwrites it."),
            witness=ctx.path_witness(f, wit))
+
+
+def r7_other_committers(ctx: Ctx, rid: str = "C08.R7") -> None:
+    ctx.rule(rid, "every OTHER function that reads the pointer's ETag and then flips the pointer (a second commit path: a "
+             "metadata-only / maintenance commit) ties the two: the version it built on is derived from that ETag read, or a "
+             "comparison of the read's content with the resolved version dominates the flip and raises on mismatch", 0)
+    hv = hint_value(ctx)
+    wq = {w.qname for w in hint_writers(ctx)}
+    main = ctx.fn("metadata_manager.MetadataManager.commit")
+    n_f = 0
+    for f in sorted(ctx.prog.functions.values(), key=lambda x: x.qname):
+        if isinstance(f.node, ast.Lambda) or f.qname == main.qname or f.qname in wq:
+            continue
+        g = ctx.cfg(f)
+        reads = [n for n in g.calls() if n.id in g.reachable() and ctx.eff.storage_op(n) == "read_file_with_etag"
+                 and fold_str(ctx, f, path_arg(n), n.id) == hv]
+        cps = [n for n in g.calls() if n.id in g.reachable() and (any(t.qname in wq for t in ctx.eff.callees(f, n)))]
+        if not reads or not cps:
+            continue
+        n_f += 1
+        sl = ctx.slicer(f)
+        resolved = [n for n in g.calls() if any(t.name in ("_current_version_info", "_read_version_hint", "refresh", "_read_metadata_file")
+                                                 for t in ctx.eff.callees(f, n))]
+        for cp in cps:
+            r = reads[0]
+            eo = sl.origins(cp.ast.args[-1] if isinstance(cp.ast, ast.Call) and cp.ast.args else None, cp.id)
+            flows = r.ast in eo["calls"]
+            opt_a = any(r.ast in sl.origins(a, v.id)["calls"] for v in resolved if isinstance(v.ast, ast.Call) for a in v.ast.args)
+            cands = []
+            for b in g.nodes:
+                if b.kind != "branch" or not isinstance(b.ast, ast.Compare) or len(b.ast.ops) != 1 \
+                        or not isinstance(b.ast.ops[0], (ast.NotEq, ast.Eq)):
+                    continue
+                lo, ro = sl.origins(b.ast.left, b.id), sl.origins(b.ast.comparators[0], b.id)
+                if (r.ast in lo["calls"]) == (r.ast in ro["calls"]):
+                    continue
+                other = ro if r.ast in lo["calls"] else lo
+                if not any(v.ast in other["calls"] for v in resolved):
+                    continue
+                t = edge_target(g, b, "true" if isinstance(b.ast.ops[0], ast.NotEq) else "false")
+                if t is None:
+                    continue
+                reach = reachable_from(g, t, NORMAL)
+                if cp.id in reach or not any(g.nodes[x].kind == "raise" for x in reach):
+                    continue
+                cands.append(b)
+            opt_b = False
+            wit = None
+            if cands:
+                guard_edges = {(b.id, d) for b in g.nodes if b.kind == "branch" and b.ast is not None and ("is not None" in b.text or "is None" in b.text)
+                               for d, l in g.succ[b.id] if l == ("false" if "is not None" in b.text else "true")}
+                wit = find_path(g, r.id, [cp.id], avoid=[c.id for c in cands], labels=NORMAL, edge_ok=lambda s_, d_, l_: (s_, d_) not in guard_edges)
+                opt_b = wit is None
+            ok = flows and (opt_a or opt_b)
+            ctx.ob(rid, f, "second commit path: validated version == version whose ETag keys the conditional write", cp, ok,
+                   f"etag flows from the pointer read: {flows}; version resolved from that read: {opt_a}; name comparison dominating "
+                   f"the flip: {opt_b}. " + ("" if ok else "The version this function builds on and the ETag it conditions the write on "
+                   "come from independent pointer reads: a commit landing between them (the lock gives no exclusion after a lapsed "
+                   "lease) is overwritten although the conditional PUT succeeds."), witness=ctx.path_witness(f, wit))
+    ctx.ob(rid, None, "second commit paths enumerated", None, True, f"{n_f} function(s) besides MetadataManager.commit read the "
+           "pointer's ETag and flip the pointer", nontrivial=False)
 
 
 def r2(ctx: Ctx) -> None:
